@@ -2038,7 +2038,10 @@ class TargetRegistry:
             if isinstance(obj, cur_type):
                 sub_type = self._get_closest_type(obj, type_tree=sub_tree)
                 ret = cur_type if sub_type is None else sub_type
-                return ret
+                # a type with several registered bases sits under only one of them:
+                # keep looking, a more specific match may be under a later sibling
+                if default is None or issubclass(ret, default):
+                    default = ret
         return default
 
     def _register_default_types(self):
